@@ -236,3 +236,13 @@ Fixpoint crun (q : quirks) (p : policy) (st : cstate) (es : list cev) : list (op
   end.
 
 Definition cinit (l : list server) : cstate := {| lbs := [(l, 0)]; curlb := 0%nat; regs := [] |}.
+
+(** ** service discovery reports (pool.go watchServers): the initial listing, the priming event
+    of the new watcher and every later event each carry the complete instance set and are
+    applied by useService in the order of their delivery; the pool's list after a sequence of
+    reports (none: the static list installed by createLoadBalancer) *)
+Definition watch_list (static : list server) (tags : list string) (reports : list (list instance)) : list server :=
+  fold_left (fun _ r => pool_list static (tagged tags r)) reports static.
+
+(** ** a retried request: every attempt is Load followed by Choose (doHandle) *)
+Definition attempt (g : nat) (d : Z) (k : string) : list cev := [CLoad g; CChoose g d k].
